@@ -162,14 +162,17 @@ ExpRef.zero = ExpRef(0, 0)
 ExpRef.one = ExpRef(1, 0)
 
 
-def finite_derivations(rules, V):
-    """True iff S has finitely many derivation trees: no recursion among useful rules."""
+def finite_derivations(rules, V, everywhere=False):
+    """Rule list (same indices, useless rules made unreachable) iff S has finitely
+    many derivation trees, i.e. no recursion among useful rules; else None.
+    everywhere=True: no recursion among productive rules of ANY nonterminal."""
     from vf.ref_cfg import productive, reachable
 
     P = productive(rules, V)
     useful = [(h, b) for h, b in rules if h in P and all(y in P for y in b)]
-    T = reachable(useful, "S")
-    useful = [(h, b) for h, b in useful if h in T]
+    if not everywhere:
+        T = reachable(useful, "S")
+        useful = [(h, b) for h, b in useful if h in T]
     edges = {}
     for h, b in useful:
         edges.setdefault(h, set()).update(y for y in b if y not in V)
